@@ -85,6 +85,7 @@ e("is_null_expr", S_I, lambda p, t: (t.a + t.b).is_null())
 e("fill_null_c", S_I, lambda p, t: t.a.fill_null(t.b))
 e("fill_null_l", S_I, lambda p, t: t.a.fill_null(0))
 e("fill_null_bool", S_I, lambda p, t: t.p.fill_null(False))
+e("coalesce1", S_I, lambda p, t: p.coalesce(t.a) + p.coalesce(t.b + 1))
 e("coalesce2", S_I, lambda p, t: p.coalesce(t.a, t.b))
 e("coalesce3", S_I, lambda p, t: p.coalesce(t.a, t.b, 0))
 e("coalesce_expr", S_I, lambda p, t: p.coalesce(t.a + 1, t.b * 2, -1))
